@@ -264,8 +264,7 @@ Section Model.
               if is_type_and_key aev t_power_levels [] then (Some aev, cre)
               else if negb lock_set && is_type_and_key aev t_create [] then (plev, Some aev)
               else (plev, cre) in
-            if is_some (fst pc) && (lock_set || is_some (snd pc)) then pc
-            else pl_scan lock_set r (fst pc) (snd pc)
+            pl_scan lock_set r (fst pc) (snd pc)
         | None => pl_scan lock_set r plev cre
         end
     end.
